@@ -17,7 +17,7 @@ import subprocess
 import sys
 import time
 
-RLIMIT = 30  # generous: undecided (rlimit) outcomes are machinery noise, never verdicts
+RLIMIT = float(os.environ.get("VERIF_RLIMIT", "30"))  # generous: undecided (rlimit) outcomes are machinery noise, never verdicts
 VERIF = os.path.dirname(os.path.dirname(os.path.abspath(__file__)))
 EXTRACTOR = os.path.join(VERIF, "tools/extractor/target/release/extractor")
 CONTRACTS = os.path.join(VERIF, "contracts")
@@ -131,7 +131,7 @@ def run_verus(unit, src, wdir, tier, seed=None, rlimit=None, extra=None, log_air
     if log_air:
         cmd += ["--log", "air-final", "--log-dir", logdir]
     if rlimit:
-        cmd += ["--rlimit", str(rlimit)]
+        cmd += ["--rlimit", ("%g" % rlimit)]
     if seed is not None:
         cmd += ["--smt-option", "smt.random_seed=%d" % seed]
     if extra:
@@ -195,7 +195,7 @@ def classify(diags, regions, src_name):
 
 
 
-def ablation_pass(unit, ucfg, repo, wdir, tier, regions, und):
+def ablation_pass(unit, ucfg, repo, wdir, tier, regions, und, src=None):
     """Fallback for functions whose full query ran into the resource limit: verify the "body obligations only" variant
     (extractor --ablate: every end-of-loop / end-of-function proof block is replaced by assume(false)).  Every obligation of
     that variant is an obligation of the real function under the same assumptions (loop invariant at the head, path
@@ -226,7 +226,20 @@ def ablation_pass(unit, ucfg, repo, wdir, tier, regions, und):
             decided.add(name)
             notes.append({"function": name, "note": "full query: resource limit; body-only variant: %d failed obligation(s)" % len(mine)})
         else:
-            notes.append({"function": name, "note": "full query: resource limit; body-only variant decided nothing"})
+            # last resort: the full function once more, on its own, with three times the budget.  A success is a complete proof.
+            ok = False
+            if src is not None:
+                vb = run_verus("%s_big_%s" % (unit, re.sub(r"\W", "_", name))[:80], src, wdir, tier, None, 3 * RLIMIT,
+                               ["--verify-root", "--verify-function", name.split("@")[-1]], False)
+                if vb["json"] is not None:
+                    vr2 = vb["json"].get("verification-results", {})
+                    f3, u3 = classify(vb["diags"], regions, os.path.basename(src))
+                    ok = (not vr2.get("encountered-error")) and vr2.get("errors", 1) == 0 and vr2.get("verified", 0) > 0 and not f3 and not u3
+            if ok:
+                decided.add(name)
+                notes.append({"function": name, "note": "whole-unit run: resource limit; verified on its own with 3x the budget (a complete proof)"})
+            else:
+                notes.append({"function": name, "note": "full query: resource limit; body-only variant decided nothing"})
     und2 = [u for u in und if not ("Resource limit" in u.get("message", "") and u.get("line") and (region_of(regions, u["line"]) or {}).get("name") in decided)]
     return found, und2, notes
 
@@ -329,7 +342,7 @@ def do_unit(unit, ucfg, repo, wdir, tier, prop):
     if fails:
         fails, R["unstable"] = confirm_failures(unit, src, wdir, tier, regions, src_name, fails)
     # functions that ran into the resource limit: try the body-obligations-only variant
-    extra, und, R["rlimit_fallback"] = ablation_pass(unit, ucfg, repo, wdir, tier, regions, und)
+    extra, und, R["rlimit_fallback"] = ablation_pass(unit, ucfg, repo, wdir, tier, regions, und, src)
     fails = fails + extra
     R["fails"] = fails
     R["undecided"] = und
